@@ -4,7 +4,7 @@ from engine import rule, Inst, AnchorLost
 from ctx import match_arms, arm_of, arm_region, RXPACKET, TXPACKET, CTXMSG, short_ty, fmt_atoms
 from cond import Cond, dominating_edges
 from effects import SESSION, effects
-from mir import Body, callee_name, callee_resolved, symex, sym_or_terms, sym_fold, sym_leaves, _symex_rv, place_fields
+from mir import Body, callee_name, callee_resolved, symex, sym_or_terms, sym_fold, sym_leaves, _symex_rv, place_fields, int_widening
 from pathutil import traced_paths, exit_kind
 from r_quota import type_guards
 
@@ -151,6 +151,8 @@ def key(ctx):
         ncast = 0
         for b_ in bodies:
             for i in sorted(b_.reach):
+                if b_.term(i)["k"] == "call" and int_widening(b_.term(i)) is not None:
+                    ncast += 1          # `usize::from(x)`: the lossless conversions are the only ones that exist
                 for st in b_.blocks[i]["stmts"]:
                     if st["k"] != "assign" or st["rv"]["k"] != "cast" or st["rv"].get("kind") != "IntToInt":
                         continue
@@ -208,7 +210,7 @@ def lookup(ctx):
         for a in s:
             if a[0] == "call" and a[1].endswith("VecDeque::remove"):
                 removes = True
-        has_search = any(c.endswith("linear_search_by_key") for c in calls)
+        has_search = any(c.endswith("linear_search_by_key") or c.endswith("Iterator::position") for c in calls)
         # search + removal packaged in a local helper `h(&mut deque, key)`
         for c in calls:
             hb = ctx.world.body(c) if ctx.facts.fn(c) else None
@@ -245,45 +247,66 @@ def lookup(ctx):
         out.append(Inst("LOOKUP", "complete@%s" % _armname(hp, e), ok and same, e.site(),
                         "sender from Session.%s via %s, keyed remove=%s, key of same packet=%s" % (sorted(fields), sorted("::".join(c.split("::")[-1:]) for c in calls if "search" in c or "action_id" in c), removes, same),
                         "sender <= awaiting_ack.remove(linear_search_by_key(awaiting_ack, rx_action_id(pkt))) and Complete(Ok(pkt))"))
-    # linear_search_by_key semantics
-    ls = ctx.body(r"client::utils::linear_search_by_key$")
-    o = None
-    for d in ls.whole_defs(0):
-        if d[0] == "call":
-            o = d[2]
-    ok = False
-    fact = "return value is not produced by Iterator::position"
-    if o is not None and (callee_name(o) or "").endswith("Iterator::position"):
-        recv = ls.atoms(o["ops"][0])
-        adaptors = sorted(a[1].split("::")[-1] for a in recv if a[0] == "call" and not a[1].endswith("VecDeque::iter")
-                          and not re.search(r"(Deref::deref|AsRef::as_ref|Borrow::borrow|IntoIterator::into_iter)$", a[1]))
-        iter_ok = any(a[0] == "call" and a[1].endswith("VecDeque::iter") for a in recv) and any(a[0] == "param" and a[1] == 1 for a in recv) \
-            and not adaptors
-        clo = [a[1] for a in ls.atoms(o["ops"][1]) if a[0] == "closure"]
-        cl_ok = False
-        if clo:
-            cb = ctx.world.body(clo[0])
-            e0 = symex(cb, {"l": 0, "p": []})
-            if e0[0] == "call" and e0[1].endswith("PartialEq::eq"):
-                a, b_ = e0[2]
-                la = [l for l in sym_leaves(a) if l[0] == "place"]
-                lb = [l for l in sym_leaves(b_) if l[0] == "place"]
-                # one side is (a component / the key accessor of) the element handed to the predicate, the other the
-                # searched key captured by the closure
-                def from_elem(x):
-                    return any(l[4] == 2 for l in sym_leaves(x) if l[0] == "place") or any(a_[0] == "param" and a_[1] == 2 for a_ in _sym_atoms(cb, x))
-
-                def from_key(x):
-                    return any(l[4] == 1 for l in sym_leaves(x) if l[0] == "place")
-                f0 = (from_elem(a) and not from_key(a)) or (from_elem(b_) and not from_key(b_))
-                up = (from_key(a) and not from_elem(a)) or (from_key(b_) and not from_elem(b_))
-                cl_ok = f0 and up
-                fact = "position(|elem| key_of(elem) == key) over deque.iter(): element-side=%s captured-key=%s plain-iter=%s%s" % (f0, up, iter_ok, " (adaptors: %s)" % adaptors if adaptors else "")
-            else:
-                fact = "predicate is %s, not a plain equality" % (e0[:2],)
-        ok = iter_ok and cl_ok
-    out.append(Inst("LOOKUP", "linear_search_by_key", ok, ls.site(0), fact, "first index (front to back) whose key equals the searched key"))
+    # what a search is: the helper (looked at once), or `deque.iter().position(|e| key_of(e) == key)` written at the site
+    ls_fn = ctx.facts.find(r"client::utils::linear_search_by_key$")
+    if ls_fn:
+        ls = ctx.body(r"client::utils::linear_search_by_key$")
+        o = None
+        for d in ls.whole_defs(0):
+            if d[0] == "call":
+                o = d[2]
+        ok, fact = position_semantics(ctx, ls, o, need_param=1) if o is not None else (False, "return value is not produced by Iterator::position")
+        out.append(Inst("LOOKUP", "linear_search_by_key", ok, ls.site(0), fact, "first index (front to back) whose key equals the searched key"))
+    n = 0
+    for i, t in hp.calls(r"Iterator::position$"):
+        recv = hp.atoms(t["ops"][0])
+        flds = sorted({a[2] for a in recv if a[0] == "field" and a[1] == SESSION})
+        if not flds:
+            continue
+        ok, fact = position_semantics(ctx, hp, t)
+        out.append(Inst("LOOKUP", "search@%s:%s#%d" % (_armname_bb(hp, i), ",".join(flds), n), ok, hp.site(i), fact, "first index (front to back) whose key equals the searched key"))
+        n += 1
+    if not ls_fn and n == 0:
+        raise AnchorLost("neither a search helper nor an inline position search in the inbound handler")
     return out
+
+
+def position_semantics(ctx, body, t, need_param=None):
+    """The call terminator is `X.iter().position(|elem| key_of(elem) == key)` with a plain front-to-back iteration."""
+    if t is None or not (callee_name(t) or "").endswith("Iterator::position"):
+        return False, "return value is not produced by Iterator::position"
+    recv = body.atoms(t["ops"][0])
+    adaptors = sorted(a[1].split("::")[-1] for a in recv if a[0] == "call" and not a[1].endswith("VecDeque::iter")
+                      and not re.search(r"(Deref::deref|AsRef::as_ref|Borrow::borrow|IntoIterator::into_iter)$", a[1]))
+    iter_ok = any(a[0] == "call" and a[1].endswith("VecDeque::iter") for a in recv) and not adaptors \
+        and (need_param is None or any(a[0] == "param" and a[1] == need_param for a in recv))
+    clo = [a[1] for a in body.atoms(t["ops"][1]) if a[0] == "closure"]
+    if not clo:
+        return False, "predicate is not a closure"
+    cb = ctx.world.body(clo[0])
+    e0 = symex(cb, {"l": 0, "p": []})
+    if e0[0] == "bin" and e0[1] == "Eq":
+        e0 = ("call", "PartialEq::eq", [e0[2], e0[3]])
+    if not (e0[0] == "call" and e0[1].endswith("PartialEq::eq")):
+        return False, "predicate is %s, not a plain equality" % (e0[:2],)
+    a, b_ = e0[2]
+
+    # one side is (a component / the key accessor of) the element handed to the predicate, the other the searched key
+    # captured by the closure
+    def from_elem(x):
+        return any(l[4] == 2 for l in sym_leaves(x) if l[0] == "place") or any(a_[0] == "param" and a_[1] == 2 for a_ in _sym_atoms(cb, x))
+
+    def from_key(x):
+        return any(l[4] == 1 for l in sym_leaves(x) if l[0] == "place")
+    f0 = (from_elem(a) and not from_key(a)) or (from_elem(b_) and not from_key(b_))
+    up = (from_key(a) and not from_elem(a)) or (from_key(b_) and not from_elem(b_))
+    fact = "position(|elem| key_of(elem) == key) over deque.iter(): element-side=%s captured-key=%s plain-iter=%s%s" % (f0, up, iter_ok, " (adaptors: %s)" % adaptors if adaptors else "")
+    return iter_ok and f0 and up, fact
+
+
+def _armname_bb(hp, bb):
+    sw, arms, otherwise, other_vs, _ = match_arms(hp, RXPACKET)
+    return arm_of(hp, arms, otherwise, bb)
 
 
 def _armname(hp, e):
@@ -316,15 +339,31 @@ def session_mutations(ctx):
     return out
 
 
+def _on_expired_edge(run, bb):
+    """The block of run() executes only on the edge on which session_expired(..) returned true."""
+    for (d, s_) in run.control_dep_closure(bb):
+        c = Cond(run, d)
+        if c.kind == "call" and (c.callee or "").endswith("session_expired"):
+            t = c.holds_on(s_)
+            if t is not None and (t ^ bool(c.neg)):
+                return True
+    return False
+
+
 @rule("FIFO", floor=13)
 def fifo(ctx):
     """Each Session collection is mutated only by the enumerated (function, effect) pairs: push_back
     in the outbound handler, keyed remove in the inbound handler, clear in reset_session."""
     out = []
+    run = ctx.run_body()
     for role, e in session_mutations(ctx):
         for fld in sorted(e.detail["fields"]):
             how = e.detail.get("how")
             allowed = MUTATORS.get((role, e.kind, fld))
+            if allowed is None and e.kind == "Clear" and role == "run" and not e.via and _on_expired_edge(run, e.bb):
+                # the session reset written out inside run() instead of a helper: allowed exactly where the helper may be
+                # called, on the edge on which the resumed session has expired (RESUME-ORDER decides the rest)
+                allowed = {None}
             if allowed is None and fld not in ("awaiting_ack", "subscriptions", "retrasmit_queue"):
                 # inbound-only bookkeeping collections (e.g. the set of unreleased inbound QoS 2 identifiers)
                 allowed = {("inbound", "Push"): {"back"}, ("inbound", "Remove"): {"keyed", "retain"}, ("reset_session", "Clear"): {None}}.get((role, e.kind))
